@@ -82,7 +82,7 @@ PSYMS = [P(t) for t in ["+", "-", "*", "/", "<", ">", "=", "!", "?", "$", "%", "
 KWS = [K("octo", "foo"), K("octo", "foo_bar"), K("octo", "+"), K("octo", "<="), K("octo", "nil"),
        K("colon", "foo"), K("colon", "foo_bar"), K("colon", "t"),
        K("quoted", "kebab-keyword"), K("quoted", "foo"), K("quoted", "list->kw")]
-UNQS = [U(w) for w in "nsev"]
+UNQS = [U(w) for w in "nsevbcfoypwui"]
 
 
 def dedup(xs):
@@ -102,7 +102,7 @@ SMALL = [I("7"), I("-7"), F("1.5"), FE("-2.5e-3"), S("a b"), C("a"), ("true",), 
 SMALLQ = [I("7"), FE("-1e3"), S("a b"), Id("foo"), P("-"), P("..."), P("<="), K("colon", "foo"), U("n")]
 
 # what a pair dot can be followed by
-TAILS = [I("3"), I("-3"), FE("-1e16"), Id("three"), P("..."), P("-"), P("<="), S("s"), K("octo", "k"), K("colon", "k"), U("n"), U("e"), U("v"),
+TAILS = [I("3"), I("-3"), FE("-1e16"), Id("three"), P("..."), P("-"), P("<="), S("s"), K("octo", "k"), K("colon", "k"), U("n"), U("e"), U("v"), U("y"), U("p"), U("w"), U("c"),
          L(), L(I("2"), I("3")), L(I("2"), tail=I("3")), L(I("2"), tail=L(I("3"), tail=L())), L(Id("x"), tail=U("n")),
          L(P("..."), tail=P("...")), V(I("1")), V(), ("nil",), C("a")]
 
